@@ -495,5 +495,5 @@ def plan(tier, seed):
                     "the parser", "IEEE correctness of libm pow/fmod (oracle is the same call on the same symbolic operands)",
                     "fixed-size storage forms (off in the default configuration)", "L2 for kinds outside the L2 list",
                     "L2 for the unary operators"],
-        "caps": {"quick_timeout": 900, "thorough_timeout": 1800, "heavy_jobs": 5, "heavy_rss_gb": 11},
+        "caps": {"quick_timeout": 900, "thorough_timeout": 1800, "heavy_jobs": 10, "heavy_rss_gb": 6},
     }
